@@ -423,7 +423,8 @@ def grid_cases(rng, n_random, small=False):
 
 THEOREMS = (
     "fromLE_le2", "fromLE_le4", "fromLE_le8",
-    "closedFile_layout", "walk_chunks", "C09_roundtrip",
+    "unclosedFile_layout", "closeW_layout", "walk_chunks", "walk_chunks_then", "chunkData_found",
+    "readFmt_spec", "readChna_spec", "finishRead_written", "C09_roundtrip",
 )
 
 
@@ -520,8 +521,24 @@ class C09(Spec):
 SPEC = C09()
 
 REGISTRY = dict(
-    text="",
-    note="",
+    text="FULL: Lean theorem Earverif.Bw64.C09_roundtrip proves, for the byte-level models of Bw64Writer "
+    "(__init__/write/setters/close as append and patch-at-offset operations) and Bw64Reader (__init__ + accessors), "
+    "that for every PCM format (16/24/32 bit, channels >= 1, rate >= 1, fields within struct widths), every history "
+    "of write calls (any partition, empty blocks) and chunk setter calls, axml/chna/bext each absent, empty or of any "
+    "length < 2^32, given at construction or pending at close, forceBw64 either way, whole frames and < 2^63 data "
+    "bytes: readFile (closedFile ...) = ok with the same format, frame count, data bytes and chunk contents and an "
+    "EMPTY warning list (container id BW64 iff forced or RIFF size >= 2^32). Supporting theorems: closeW_layout "
+    "(closed-form layout incl. size back-patching and JUNK->ds64), walk_chunks (the reader's chunk walk records every "
+    "well-formed chunk), finishRead_written. The models are tied to the code on every run byte-for-byte (written "
+    "files) and field-for-field (parses, warnings as multiset) over all 250 chunk presence/parity/placement/force "
+    "combinations x bit depth x channels x frame classes + random histories; the round-trip predicate (format, samples "
+    "exact for representable values / within one step otherwise, chunk bytes, chna objects, no warnings) runs on the "
+    "real code for every case.",
+    note="Trusted: Lean kernel; hand transliteration of writer/reader + correspondence harness; BytesIO semantics as "
+    "modelled (readAt/patchAt); PCM sample encoding is C16's subject (model takes encoded bytes; sample values are "
+    "checked by the direct predicate only); a chna entry is track index + 38 opaque bytes in the theorem (string-level "
+    "AudioID codec covered by correspondence and predicate). Chunks supplied both at construction and later are "
+    "outside the property (the theorem states what the file then contains: the constructor's value).",
     technique="Lean 4 proof about byte-level writer/reader models + differential correspondence with the real "
     "Bw64Writer/Bw64Reader + round-trip search on the real code",
     design_ref="DESIGN.md section 4, C09",
